@@ -84,13 +84,14 @@ def run_property(pid, tier, seed, only, spec):
                 rest = [u for u in set(rep.unsupported) if u not in lab or pid != 'C16']
                 if rest:
                     chk.undecided.append(f"{rep.name}: unsupported construct(s): {sorted(rest)[:3]}")
-            sel = [o for o in rep.obligations if re.search(rx, clause_of(o.name))]
+            IMPLICIT = ('AttributeError', 'TypeError', 'KeyError', 'IndexError', 'NameError', 'UnboundLocalError')
+            is_implicit = lambda o: o.kind == 'no-raise' and str((o.extra or {}).get('exc', '')).split(':')[0] in IMPLICIT
+            sel = [o for o in rep.obligations if re.search(rx, clause_of(o.name)) and not is_implicit(o)]
             obs += sel
             # a path that ends in an exception Python itself raises (missing attribute, wrong type, missing key ...) means the
             # code no longer fits the pre-state the sidecar contract builds: the clauses of that path were not generated, so
             # the group is UNDECIDED (never silently smaller, never a violation by itself)
-            implicit = [o for o in rep.obligations if o.kind == 'no-raise' and not re.search(rx, clause_of(o.name)) and
-                        str((o.extra or {}).get('exc', '')).split(':')[0] in ('AttributeError', 'TypeError', 'KeyError', 'IndexError', 'NameError', 'UnboundLocalError')]
+            implicit = [o for o in rep.obligations if is_implicit(o)]
             if implicit:
                 key_ = (source, rep.name)
                 if key_ not in implicit_done:
